@@ -19,7 +19,8 @@ EXPLANATION = (
     "the filtered object; the polars implementation AND-folds every check_output mask starting from True and filters; "
     "(R3) errors that are not attributable to rows (scalar failure cases / no check_output) are tested for before being "
     "used as row sets (typestate, shared with C06.R3); (R4) in every backend validate the drop is reached only when errors "
-    "were collected and the option is set, its result is returned, and otherwise SchemaErrors is raised. NOT decided: "
+    "were collected and the option is set, its result is returned, and otherwise SchemaErrors is raised. (R5) in reshape_failure_cases no dropna() precedes the wide-to-long reshaping step (a row-wise dropna on the wide table loses failing rows that hold a null elsewhere); (R6) the object that the pandas column / index / multi-index backends hand to the delegated validation keeps the labels of the working object (no reset_index(drop=True) / .values / to_numpy), because drop_invalid_rows matches failure-case labels against check_obj.index. " 
+    "NOT decided: "
     "row-set equality on real data; MultiIndex label round trip through str/eval."
 )
 LEVEL_RULE = "one obligation per backend validate / fold step / typestate use"
